@@ -129,6 +129,8 @@ LineCheck(i, tainted) ==
         ELSE IF Want("C17") /\ kern /\ IsSwap(c) /\ ~relM THEN "C17:SwapRel"
         ELSE IF Want("C11") /\ kern /\ c.op \in {"add_vertex", "add_edge", "add_face", "add_cell"} /\ ~relM THEN "C11:AddRel"
         ELSE IF (Want("C08") \/ Want("C11")) /\ kern /\ c.op = "add_face_v" /\ ~relM THEN "C08:AddFaceFromVertices"
+        ELSE IF Want("C08") /\ kern /\ ((c.op = "add_face" /\ c.f) \/ c.op = "add_face_v") /\ ln.ret \in LiveF(post)
+                /\ ~ClosedLoop(post, At(post.faces, ln.ret)) THEN "C08:AcceptedFaceNotClosedLoop"
         ELSE IF Want("STEP") /\ kern /\ ~relH THEN "STEP:" \o c.op
         ELSE IF Want("C03") /\ hasP /\ kern /\ (relH \/ ~Renumbers(pre, c)) /\ ~PropsFollow(pre, post, pp, qp, g, IsSwap(c))
              THEN "C03:PropsFollow"
